@@ -4249,7 +4249,8 @@ def vy_sort(lhs, ctx):
     """
     # This one deviates from the usual type dictionary, because lambas
     # just don't cut it.
-    if isinstance(lhs, int):
+    if isinstance(lhs, (int, sympy.Integer)):
+        lhs = int(lhs)
         if lhs >= 0:
             return int("".join(sorted(str(lhs))))
         else:
